@@ -1,7 +1,7 @@
 (* C15 - ast.Node behaves like a plain ordered tree; lazy loading is unobservable.
    Only statements, closed by `exact`, with Print Assumptions beneath each. *)
 From Coq Require Import List Arith Bool NArith.
-From SV.Ast Require Import Linked Tree Node Refute LinkedProofs IndexProofs NodeRefine ArrayRefine RootRefine.
+From SV.Ast Require Import Linked Tree Node Refute LinkedProofs IndexProofs NodeRefine ArrayRefine RootRefine ObjectRefine ObjectOps ObjectSet RootRefine2.
 Import ListNotations.
 
 (* ---- the chunked child storage (head [16] + tail chunks + size) is a plain list ---- *)
@@ -140,3 +140,35 @@ Print Assumptions C15_node_refines_tree_partial.
 Example C15_node_refines_tree_partial_nonvacuous :
   forallb frag [([], OpAdd (RLazy, TArr [TNull])); ([], OpLook); ([], OpLoad); ([], OpAdd (RRaw, TTrue)); ([], OpLook)] = true.
 Proof. reflexivity. Qed.
+
+(* ---- node_refines_tree (PARTIAL), second fragment ----
+   adds Set(key, value) and Unset(key) with non-empty keys on raw / lazy / loaded objects (index or not, soft-deleted cells, lazy
+   search of the first occurrence), for a hash without collisions that never returns 0 (caching.StrHash maps 0 to 1; a 64-bit
+   collision is the theoretical defect noted in notes/C15.md). *)
+Theorem C15_node_refines_tree_partial2 :
+  forall (hash : bytes -> N),
+    (forall a b, hash a = hash b -> a = b) ->
+    forall (v : value) (ops : list step),
+      forallb frag2 ops = true ->
+      fst (run hash ops (mk_value hash v)) = fst (spec_run ops (snd v)).
+Proof. intros hash Hinj. exact (node_refines_tree_partial2_from_doc hash Hinj). Qed.
+Print Assumptions C15_node_refines_tree_partial2.
+
+Example C15_node_refines_tree_partial2_nonvacuous :
+  forallb frag2 [([], OpSet [97]%N (RLazy, TObj [([98]%N, TNull)])); ([], OpLook); ([], OpUnset [98]%N); ([], OpLoad);
+                 ([], OpSet [97]%N (RRaw, TTrue)); ([], OpAdd (RFull, TNull))] = true
+  /\ (forall a b, hash_inj a = hash_inj b -> a = b -> True).
+Proof. split; [reflexivity|auto]. Qed.
+
+(* the lazy key search: skipKey returns the cell of the FIRST occurrence of a non-empty key (searching the loaded pairs, then
+   loading on demand), keeps the cells the object denotes and its invariant *)
+Theorem C15_skipKey_spec :
+  forall hash n key,
+    oinv hash n -> is_object n = true -> key <> [] ->
+    let r := skipKey hash n key in
+    full_cells hash (snd r) = full_cells hash n /\ oinv hash (snd r) /\ is_object (snd r) = true /\
+    fst r = keyres_of (getres_of (find_cell (full_cells hash n) key 0)) /\
+    (forall j, fst r = KFound j -> j < loaded_size (snd r)) /\
+    (fst r = KNil -> not_lazy (snd r)).
+Proof. exact skipKey_spec. Qed.
+Print Assumptions C15_skipKey_spec.
